@@ -221,3 +221,15 @@ package rapidcore
 //@   ensures [sandbox-reset-then-clear-then-one-done] delta(SandboxReset) == 1 && delta(ServerCleared) == 1 && delta(ResetDoneSent) == 1 && first(SandboxReset) < first(ServerCleared) && first(ServerCleared) < first(ResetDoneSent)
 //@ func (SandboxContext).Reset
 //@   ensures [reset-then-clear] delta(RapidHandleReset) == 1 && delta(RapidClear) == 1 && first(RapidHandleReset) < first(RapidClear)
+
+// C05: when the initialisation failed or was interrupted by the reset of a timed-out cold start, the sandbox is torn down
+// (Shutdown) before the reserved invocation is dispatched, so that it is served by processes started afterwards
+//@ event AwaitInitialized = ret rapidcore.(*Server).awaitInitialized
+//@ event InitFailedSeen = ret rapidcore.(*Server).awaitInitialized when r1 != nil
+//@ event ServerShutdown = call rapidcore.(*Server).Shutdown
+//@ event FastInvokeCall = call rapidcore.(*Server).FastInvoke
+//@ func (*Server).awaitInitialized
+//@   ensures [one-of-three-outcomes] r1 == nil || r1 == ErrInitResetReceived || r1 == ErrInitDoneFailed
+//@ func (*Server).Invoke$2$1
+//@   requires s != nil
+//@   ensures [a-failed-or-interrupted-init-is-torn-down-before-dispatch] delta(AwaitInitialized) == 1 && delta(FastInvokeCall) == 1 && delta(ServerShutdown) == delta(InitFailedSeen) && (delta(ServerShutdown) == 1 ==> first(ServerShutdown) < first(FastInvokeCall))
